@@ -388,6 +388,29 @@ pub fn case_strategy(cfg: &GenCfg) -> impl Strategy<Value = (WorldSpec, Vec<Op>)
             p.extend(tail);
             p
         }),
+        // seized, then closed: a borrower is distressed, a liquidator takes (almost) all of its collateral with classic
+        // liquidations and a receivership bracket, and the borrower - left with debt and little or no collateral - tries
+        // to close its account, its balances, to transfer it, before anybody handles the bad debt
+        1 => (prefix_strategy(), 1u16..900, prop::collection::vec(op_strategy(), 0..6)).prop_map(|(mut p, depth, tail)| {
+            let (b0, b1) = match (&p[0], &p[1]) {
+                (Op::Deposit { b: x, .. }, Op::Deposit { b: y, .. }) => (*x, *y),
+                _ => (0, 32768),
+            };
+            let (lender, borrower) = (0u16, 40001u16);
+            p.push(Op::Distress { le: borrower, mode: 0, depth });
+            p.push(Op::Liquidate { lq: lender, le: borrower, asset: b1, liab: b0, amt: 0, rel: 2 });
+            p.push(Op::Liquidate { lq: lender, le: borrower, asset: b1, liab: b0, amt: 65536, rel: 1 });
+            p.push(Op::Distress { le: borrower, mode: 1, depth: 0 });
+            p.push(Op::Liquidate { lq: lender, le: borrower, asset: b1, liab: b0, amt: 2, rel: 2 });
+            p.push(Op::Liquidate { lq: lender, le: borrower, asset: b1, liab: b0, amt: 65536, rel: 1 });
+            p.push(Op::CloseBalance { u: borrower, b: b1 });
+            p.push(Op::CloseBalance { u: borrower, b: b0 });
+            p.push(Op::CloseAccount { u: borrower, payer: 0 });
+            p.push(Op::CloseAccount { u: borrower, payer: 1 });
+            p.push(Op::Transfer { u: borrower });
+            p.extend(tail);
+            p
+        }),
         // inflation: long waits with accruals drive the share values up by orders of magnitude (as far as the
         // world's curve and utilisation allow), then a wind-down, tiny deposits and close_bank probes
         1 => (prefix_strategy(), 2usize..7, prop::collection::vec((any::<u16>(), 1u64..2000), 1..4), prop::collection::vec(op_strategy(), 0..6)).prop_map(|(mut p, k, tiny, tail)| {
